@@ -22,6 +22,7 @@ import gen_l2iter2  # noqa: F401
 import gen_l2bulk   # noqa: F401
 import gen_bsibig   # noqa: F401
 import gen_bytein   # noqa: F401
+import gen_bsi32ops # noqa: F401
 import gen_ser      # noqa: F401
 import gen_alias    # noqa: F401
 import gen_iter     # noqa: F401
